@@ -47,7 +47,7 @@ class WakeOpt(WakeC):
 
 
 def main(tier, replay):
-    return tops.run("C03", [WakeC(), WakeOpt()], tier,
+    return tops.run("C03", [WakeC(), WakeOpt(), EngineClient()], tier,
                     level_text="invariant proof on a small-step model of Trigger/Polling over the full-granularity queue model of C13 (Props/C03.lean): no lost wake-up (queued task => a wake-up is outstanding; blocked loop with nobody in flight => queues empty), every dequeued task executed exactly once in queue order, never stuck; liveness under fairness is partial (absence of stuck states is proved, fairness of the Go scheduler is assumed). Tie: T-sched on both poller files and the queue, instrumented at every atomic operation and eventfd/epoll call, real kernel eventfd/epoll objects",
                     assumptions=["every write to an eventfd registered with EPOLLET produces a new edge; edges coalesce; epoll_wait consumes the edge (checked on this kernel in the design spike)",
                                  "sync/atomic is sequentially consistent", "the Go scheduler is fair (for 'is carried out')", "eventfd counter overflow (EAGAIN after 2^64-2 writes) is not modelled"],
